@@ -260,8 +260,29 @@ def build_inputs(seed, n):
                         refcodec.dt_from_seconds(t).astimezone(mon)))
     except Exception:
         pass
-    return [(k, v) for k, v in out
+    keep = [(k, v) for k, v in out
             if 0 <= refcodec.instant_seconds(v) < 2**32]
+    # instants after 2106 (encode side only: such values are read back as
+    # milliseconds by design), up to the last second datetime can express -
+    # and, in UTC terms, beyond it: 9999-12-31 22:00 at UTC-5 is a legal
+    # aware datetime whose instant lies in year 10000.  (Whole seconds only:
+    # beyond year 2514 the tree's float arithmetic rounds x.999999 s up to
+    # the next second - the same under every time zone, recorded in 11.6 as
+    # outside the properties' domains.)
+    far = []
+    for y, mo, d, h in ((2106, 2, 7, 7), (2200, 1, 1, 0), (2514, 5, 30, 1),
+                        (5000, 6, 15, 12), (9999, 12, 31, 0),
+                        (9999, 12, 31, 22), (9999, 12, 31, 23)):
+        for off in (0, -300, 330, -720, 840, -1):
+            try:
+                far.append(('aware-far-future', datetime.datetime(
+                    y, mo, d, h, 59, 59, 0,
+                    tzinfo=datetime.timezone(datetime.timedelta(
+                        minutes=off)))))
+            except (ValueError, OverflowError):
+                pass
+        far.append(('naive-far-future', datetime.datetime(y, mo, d, h, 30)))
+    return keep + far
 
 
 def run_case(case, rec):
@@ -312,7 +333,7 @@ def _one(i, kind, v, rec, tz, log, nonzero=True):
     case = {'i': i, 'kind': kind, 'v': v, 'tz': tz}
     secs = refcodec.instant_seconds(v)
     exp_bytes = struct.pack('>Q', secs)
-    exp_dt = refcodec.dt_from_seconds(secs)
+    exp_dt = refcodec.dt_from_seconds(secs) if secs < 2**32 else None
     fam = kind.split(':')[0]
     e = call(encode.timestamp, v)
     if not e.ok:
@@ -327,6 +348,15 @@ def _one(i, kind, v, rec, tz, log, nonzero=True):
                           tz, v, got, secs,
                           None if got is None else got - secs), case,
                       observed=got, expected=secs)
+        return
+    if secs >= 2**32:
+        # (read back as milliseconds by design: encode side only)
+        rec.count('far_future_instants_encoded')
+        if log is not None:
+            log.update(('%d:%s;' % (i, e.value.hex())).encode())
+        rec.seen('input_kinds', fam)
+        if nonzero:
+            rec.nt(canon.digest((tz, i)))
         return
     d = call(decode.timestamp, e.value)
     if not d.ok:
